@@ -542,6 +542,149 @@ def native_replay(run_dir, info, entry, hdr, cand_list, spec_hdr_path, exclude=(
     if rc == 0: return 'not-confirmed', tail, None
     return 'confirmed', 'exit=%s\n%s' % (rc, tail), last
 
+
+# ---------------------------------------------------------------- translation validation (supporting check, not proof)
+C_INT = {'unsigned long': (64, False), 'long': (64, True), 'unsigned int': (32, False), 'int': (32, True), 'unsigned short': (16, False),
+         'short': (16, True), 'unsigned char': (8, False), 'signed char': (8, True), 'char': (8, True), 'unsigned long long': (64, False),
+         'long long': (64, True)}
+
+def parse_structs(text):
+    out = {}
+    for m in re.finditer(r'(struct|union) (\w+) \{\n(.*?)\n\};', text, re.S):
+        mem = []
+        for ln in m.group(3).split('\n'):
+            ln = ln.strip().rstrip(';')
+            if not ln: continue
+            mm = re.match(r'^(.*?)\s*(\**)(\w+)((?:\[\d+\])*)$', ln)
+            if not mm: mem.append(None); continue
+            dims = [int(x) for x in re.findall(r'\[(\d+)\]', mm.group(4))]
+            mem.append((mm.group(1).strip(), mm.group(2), mm.group(3), dims))
+        out[m.group(2)] = (m.group(1), mem)
+    return out
+
+def value_template(ty, structs, depth=0):
+    """zero value tree (CBMC json shape) for C type string ty; None if it contains pointers / unknown types"""
+    ty = ty.strip()
+    if depth > 12: return None
+    if ty in C_INT:
+        w, s = C_INT[ty]
+        return {'name': 'integer', 'data': '0' + ('' if s else 'u') + ('l' if w == 64 else ''), 'type': ty, 'width': w}
+    if ty == '_Bool': return {'name': 'boolean', 'data': 'FALSE'}
+    if ty in ('float', 'double'): return {'name': 'float', 'data': '0.0', 'type': ty}
+    m = re.match(r'^(struct|union) (\w+)$', ty)
+    if m and m.group(2) in structs:
+        kind, mem = structs[m.group(2)]
+        if kind == 'union': return None
+        members = []
+        for x in mem:
+            if x is None: return None
+            t, ptr, nm, dims = x
+            if ptr: return None
+            v = value_template(t, structs, depth + 1)
+            if v is None: return None
+            for dsz in reversed(dims):
+                v = {'name': 'array', 'elements': [{'index': i, 'value': json.loads(json.dumps(v))} for i in range(dsz)]}
+            members.append({'name': nm, 'value': v})
+        return {'name': 'struct', 'members': members}
+    return None
+
+TV_TMPL = r"""// generated translation-validation harness: REAL C++ instantiation vs generated C on the same inputs
+#include "%(inst_src)s"
+#include <cstring>
+#include <cstdio>
+#define _Bool bool
+namespace cgen {
+%(structs)s
+}
+#define VERIF_NATIVE 1
+#include "%(spec_hdr)s"
+#include "%(verif)s/engine/tv_eq.hpp"
+template <class T, class R> static T from_raw(const R& r) { static_assert(sizeof(T) == sizeof(R), "layout mismatch"); T t; std::memcpy((void*)&t, &r, sizeof t); return t; }
+%(decls)s
+int main() {
+  unsigned long compared = 0, mism = 0;
+%(body)s
+  std::printf("TV compared=%%lu mismatches=%%lu\n", compared, mism);
+  return mism ? 4 : 0;
+}
+"""
+
+def translation_validation(run, inst, info, hdr, spec_hdr_path, n_inputs, seed):
+    """returns dict(status, compared, wrappers, skipped, detail)"""
+    import random
+    res = {'inst': inst, 'status': 'skipped', 'compared': 0, 'wrappers': [], 'skipped': [], 'detail': ''}
+    structs_text = open(info['structs']).read()
+    structs = parse_structs(structs_text)
+    fns = info['meta']['functions']
+    rng = random.Random(seed * 7919 + 5)
+    decls = []; body = []; syms = []
+    for entry in info['meta']['entries']:
+        if entry not in fns or entry not in hdr['pre']: res['skipped'].append(entry + ' (no pre_ predicate)'); continue
+        f = fns[entry]
+        sig = hdr['post'].get(entry) or hdr['pre'].get(entry)
+        tmpls = []; ok = True
+        for p in f['params']:
+            if p['ptr']: ok = False; break
+            t = value_template(p['decl'].replace('$', '').strip(), structs)
+            if t is None: ok = False; break
+            tmpls.append(t)
+        ret = f['ret'].strip()
+        if not ok or ret == 'void' or '*' in ret or (ret not in C_INT and ret not in ('_Bool', 'float', 'double') and not re.match(r'^struct \w+$', ret)):
+            res['skipped'].append(entry + ' (parameter/return type not generatable)'); continue
+        def cxx(t): return re.sub(r'\bstruct (\w+)', r'cgen::\1', t).replace('_Bool', 'bool')
+        fields = []; args_real = []; args_raw = []; dl = []
+        for i, p in enumerate(f['params']):
+            d = p['decl']; nm = p['name']
+            fields.append(cxx(d.replace('$', nm)) + ';')
+            m = re.match(r'^(struct) (\w+) \$$', d)
+            if m:
+                dl.append('      %s %s = from_raw<%s>(C.%s);' % (sig[i][0], nm, sig[i][0], nm))
+            else:
+                dl.append('      %s = C.%s;' % (cxx(d.replace('$', nm)), nm))
+            args_real.append(nm); args_raw.append('C.' + nm)
+        rows = []
+        for t in range(n_inputs):
+            p = 1.0 if t % 3 else 0.5
+            rows.append('  {' + ', '.join(value_to_c(mutate_value(tp, rng, p)) for tp in tmpls) + '},')
+        decls.append('extern "C" %s cgen_%s(%s);' % (cxx(ret), entry, ', '.join(cxx(p['decl'].replace('$', p['name'])) for p in f['params'])))
+        decls.append('struct Cand_%s { %s };' % (entry, ' '.join(fields)))
+        decls.append('static const Cand_%s cands_%s[] = {\n%s\n};' % (entry, entry, '\n'.join(rows)))
+        body.append('  for (unsigned long c = 0; c < sizeof(cands_%s) / sizeof(cands_%s[0]); c++) {' % (entry, entry))
+        body.append('      const Cand_%s& C = cands_%s[c];' % (entry, entry))
+        body.extend(dl)
+        body.append('      if (!pre_%s(%s)) continue;' % (entry, ', '.join(args_real)))
+        body.append('      auto real = %s(%s);' % (entry, ', '.join(args_real)))
+        body.append('      auto gen  = cgen_%s(%s);' % (entry, ', '.join(args_raw)))
+        body.append('      compared++;')
+        body.append('      if (!tv::eq(real, gen)) { mism++; std::printf("TV MISMATCH %s candidate %%lu\\n", c); }' % entry)
+        body.append('  }')
+        syms.append(entry); res['wrappers'].append(entry)
+    if not syms: return res
+    wd = os.path.join(run.work, 'tv_' + inst); os.makedirs(wd, exist_ok=True)
+    gen_o = os.path.join(wd, 'gen.o')
+    rc, out, err, dt = sh(['gcc', '-std=gnu11', '-O1', '-w', '-c', '-DVERIF_NATIVE_C', '-I', VERIF, info['gen'], '-o', gen_o], timeout=600)
+    if rc != 0:
+        res['status'] = 'unavailable'; res['detail'] = 'generated C does not compile natively: ' + (err + out)[-600:]; return res
+    open(os.path.join(wd, 'redef.txt'), 'w').write('\n'.join('%s cgen_%s' % (s, s) for s in syms) + '\n')
+    open(os.path.join(wd, 'keep.txt'), 'w').write('\n'.join('cgen_%s' % s for s in syms) + '\n')
+    rc, out, err, dt = sh(['objcopy', '--redefine-syms=' + os.path.join(wd, 'redef.txt'), '--keep-global-symbols=' + os.path.join(wd, 'keep.txt'), gen_o], timeout=60)
+    if rc != 0:
+        res['status'] = 'unavailable'; res['detail'] = 'objcopy failed: ' + (err + out)[-300:]; return res
+    src = TV_TMPL % {'inst_src': info['src'], 'structs': structs_text, 'spec_hdr': spec_hdr_path, 'verif': VERIF,
+                     'decls': '\n'.join(decls), 'body': '\n'.join(body)}
+    cpp = os.path.join(wd, 'tv.cpp'); open(cpp, 'w').write(src)
+    rc, out, err, dt = sh(['g++', '-std=c++17', '-O1', '-DNDEBUG', '-w', '-I', REPO + '/include', '-I', VERIF, cpp, gen_o, '-o', os.path.join(wd, 'tv')], timeout=1200)
+    if rc != 0:
+        res['status'] = 'unavailable'; res['detail'] = 'harness does not compile: ' + (err + out)[-800:]; return res
+    rc, out, err, dt = sh([os.path.join(wd, 'tv')], timeout=300)
+    m = re.search(r'TV compared=(\d+) mismatches=(\d+)', out)
+    if not m:
+        res['status'] = 'unavailable'; res['detail'] = 'harness crashed: rc=%s %s' % (rc, (out + err)[-400:]); return res
+    res['compared'] = int(m.group(1)); res['mismatches'] = int(m.group(2))
+    res['status'] = 'agree' if int(m.group(2)) == 0 else 'MISMATCH'
+    res['detail'] = '\n'.join(l for l in out.split('\n') if 'MISMATCH' in l)[:600]
+    return res
+
 # ---------------------------------------------------------------- main flow
 def trace_excerpt(trace, limit=40):
     out = []
@@ -643,9 +786,22 @@ def _main(a, pid, run, seed, t0):
         else:
             raise Undecided('known finding witness for %s no longer fails (%s); update known_findings.json' % (kf['entry'], verdict))
 
-    # ---- discharge
+    # ---- discharge (translation validation of every inst runs alongside, as a supporting check)
+    tv_results = []
+    def do_tv(key):
+        inst, defs = key
+        try:
+            return translation_validation(run, inst, run.inst_built[key], hdrs[inst], os.path.join(VERIF, 'spec', inst + '.h'),
+                                          600 if a.tier == 'quick' else 20000, seed)
+        except Exception as e:
+            return {'inst': inst, 'status': 'unavailable', 'detail': 'exception: %r' % (e,), 'compared': 0, 'wrappers': [], 'skipped': []}
     with ThreadPoolExecutor(max_workers=a.j) as ex:
+        tv_f = [ex.submit(do_tv, k) for k in insts if not os.environ.get('VERIF_NO_TV')]
         results = list(ex.map(run.run_unit, units))
+        tv_results = [f.result() for f in tv_f]
+    for t in tv_results:
+        if t['status'] == 'MISMATCH':
+            raise Undecided('translation validation: generated C disagrees with the real C++ code for %s: %s' % (t['inst'], t['detail']))
 
     # ---- lemmas
     lemma_results = []
@@ -721,7 +877,9 @@ def _main(a, pid, run, seed, t0):
         violations.append((r, rp, verdict))
 
     wall = time.time() - t0
-    write_evidence(pid, a.tier, seed, prop, results, lemma_results, kf_active, fixed, violations, wall)
+    write_evidence(pid, a.tier, seed, prop, results, lemma_results, kf_active, fixed, violations, wall, tv_results)
+    for t in tv_results:
+        print('translation-validation %-12s %-11s wrappers=%d inputs_compared=%d %s' % (t['inst'], t['status'], len(t['wrappers']), t['compared'], t['detail'][:200].replace('\n', ' ')))
 
     for r in results:
         print('unit %-40s %-9s %4d/%-4d %6.1fs %s' % (r['unit'], r['status'] + ('(B)' if r['bounded'] else ''), r['discharged'], r['obligations'], r['seconds'], r.get('why', '')))
@@ -769,7 +927,7 @@ def check_lemma(lm, run):
         res['why'] = (out + err)[-800:]
     return res
 
-def write_evidence(pid, tier, seed, prop, results, lemma_results, kf_active, fixed, violations, wall):
+def write_evidence(pid, tier, seed, prop, results, lemma_results, kf_active, fixed, violations, wall, tv_results=()):
     meta = getattr(prop, 'META', {})
     proved_units = [r for r in results if r['status'] == 'proved' and not r['bounded']]
     bounded_units = [r for r in results if r['bounded']]
@@ -797,6 +955,7 @@ def write_evidence(pid, tier, seed, prop, results, lemma_results, kf_active, fix
             'samples': samples[:12] or ['(none)'],
             'known_findings_active': [k['what'] for k in kf_active],
             'fixed': fixed,
+            'translation_validation': [{k: v for k, v in t.items()} for t in tv_results],
             'not_covered': meta.get('not_covered', []),
             'explanation': meta.get('explanation', ''),
             'extraction': 'clang++ -ast-dump=json of /verif/inst/*.cpp against /repo/include (current working tree) -> engine/cxx2c.py -> C; contracts from /verif/contracts/*.spec and /verif/spec/*.h',
